@@ -10,6 +10,7 @@ evaluation order the simulator may pick, with CBlock→SBlock event feedback.
 import EdzedModel.Simulate
 import EdzedProofs.Simulate
 import EdzedModel.Gen.Translated
+import EdzedProofs.SimTie
 
 namespace Edzed.Sim
 
@@ -190,5 +191,55 @@ theorem translated_and_is_model (pos : List Sim.Src) (own : Val) (outC outS : Na
 theorem translated_or_is_model (pos : List Sim.Src) (own : Val) (outC outS : Nat → Val) :
     Sim.calcBlk { fn := .or, pos := pos } own outC outS
       = Val.bool (Gen.Tr.orFunc (pos.map (Sim.Src.val outC outS))) := rfl
+
+/-! ### the simulator loop that C01's operations `start`, `eval b`, `idle` stand for
+
+`Gen.TrL.simInit` / `simStep` are regenerated from the current AST of `Circuit._simulate`
+(tools/py2lean_sim.py); `SimTie.simPrims` instantiates their primitives with the model (details in
+EdzedProps/C10.lean, EdzedProofs/SimTie.lean). -/
+
+open Edzed.SimTie Edzed.Gen.TrL in
+/-- the first pass starts from what the CODE computes before its loop: every CBlock is in the eval set
+    (so `first_pass`'s invariant holds initially), the counter is 0 -/
+theorem translated_first_pass_is_start (c : Sim.Circuit) (en : (Nat → Bool) → List Nat) (outS : Nat → Val) :
+    toSt (simInit (simPrims c en)).2.1 (simInit (simPrims c en)).2.2 ⟨fun _ => .undef, outS, []⟩
+      = Sim.start c outS := by
+  rw [simInit_eq]; rfl
+
+open Edzed.SimTie Edzed.Gen.TrL in
+/-- one pass through the body of the code's `while True:` (not at the pause) leaves the locals and the
+    world exactly as C01's operation `eval b` does, for a block `b` of the eval set: the queue is drained
+    BEFORE the evaluation, the block is taken out, its `oconnections` enter only when its output changed;
+    the pass never suspends -/
+theorem translated_iteration_is_eval_op (c : Sim.Circuit) (en : (Nat → Bool) → List Nat) (hen : Enumerates c en)
+    (s : Sim.St Val) (h : pauseCond c s = false) :
+    ∃ b, match simStep (simPrims c en) c.limit s.E s.cnt (worldOf s) with
+      | .next (E', cnt') w' => toSt E' cnt' w' = Sim.step c s (.eval b)
+      | .raise _ (E', _) w' => toSt E' s.cnt w' = Sim.step c s (.eval b)
+      | .await _ => False := by
+  obtain ⟨b, _, heq⟩ := simStep_j1_eq c en hen s
+  refine ⟨b, ?_⟩
+  rw [simStep_nopause c en s h, heq]
+  simp only [Sim.step]
+  rcases hr : Sim.evalOp c s b with ⟨s', r⟩
+  cases r with
+  | ok ch v => rfl
+  | illegalChoice => rfl
+  | instability =>
+    have := Burst.evalOp_instability c s b (by rw [hr])
+    rcases Burst.evalOp_cases c s b with ⟨_, h2⟩ | ⟨_, _, h3⟩ | ⟨_, _, _, h3⟩ | ⟨_, _, _, _, ch', v', h3⟩
+    · rw [h2] at hr; cases hr
+    · rw [h3] at hr
+      cases hr
+      rfl
+    · rw [h3] at hr; cases hr
+    · rw [h3] at hr; cases hr
+
+open Edzed.SimTie in
+/-- C01's operation `idle` succeeds exactly where the code's loop reaches its pause condition
+    `not eval_set and queue.empty()` (after at most one `continue`) -/
+theorem translated_pause_is_idle (c : Sim.Circuit) (s s' : Sim.St Val) (h : Sim.idleOp c s = some s') :
+    pauseCond c (Sim.drain c.net s) = true ∧ s' = { Sim.drain c.net s with cnt := 0 } :=
+  idle_pause c s s' h
 
 end Edzed.TrTie
